@@ -49,6 +49,12 @@ check("C05", "exploration",
       "model-based property testing (rapid) of generated histories against a per-actor lifecycle state machine, in virtual time",
       "DESIGN.md §4 C05, §3.5")
 
+check("C03", "exploration",
+      "Generated histories of spawn / tell / kill / failure+decision / restart / stash with drawn target states and reference provenance run on the real runtime in virtual time; a conservation oracle over the complete trace and the dead-letter stream decides, at exact quiescence, that no message id vanished or was duplicated; a stopped system must stay quiescent.",
+      "Sampling of scenarios and (in racing mode) of interleavings; 'never delivered' is decided by synctest quiescence, not by a timeout.",
+      "model-based property testing (rapid): conservation invariant over generated histories, in virtual time with a quiescence oracle",
+      "DESIGN.md §4 C03, §3.5")
+
 NOT_YET = {}
 
 def main():
